@@ -437,11 +437,7 @@ as numpy.loadtxt will not work as expected."""
                   dtype=[(np.str_('<;'), '<i8'), (np.str_(';<'), '<i8')])
 
         """
-        return numpy.ndarray(
-            shape=self.shape,
-            dtype=[(key, self.dtype) for key in self.keys],
-            buffer=self.data,
-        )
+        return numpy.ndarray.view(self, numpy.ndarray)
 
     def isconstant(self) -> bool:
         """
